@@ -6,6 +6,16 @@ let s_col = function None -> "-" | Some Red -> "R" | Some Black -> "B"
 let n_of_int i = n_of_i64 (Int64.of_int i)
 let int_of_n x = Int64.to_int (i64_of_n x)
 
+(* cfg <kind> <pool> <mode> [every [desc mask store]]: the state of the comparator object the harness hands to the rbtree
+   constructor (DirLess: compares key^mask, descending if desc); the model's [less] is instantiated with the same state.
+   [store] (how the harness creates the tree object) has no counterpart in the model. *)
+let norm_cfg = function
+  | [a; b; c; d] -> [a; b; c; d; "1"; "0"; "0"; "0"]
+  | [a; b; c; d; e] -> [a; b; c; d; e; "0"; "0"; "0"]
+  | w -> w
+let dirless (desc : bool) (mask : n) : pelt -> pelt -> bool =
+  pless (fun a b -> if desc then N.ltb (N.coq_lxor b mask) (N.coq_lxor a mask) else N.ltb (N.coq_lxor a mask) (N.coq_lxor b mask))
+
 let fnv (s : string) : int64 =
   let h = ref 0xcbf29ce484222325L in
   String.iter (fun c -> h := Int64.mul (Int64.logxor !h (Int64.of_int (Char.code c))) 1099511628211L) s;
@@ -15,13 +25,13 @@ let body lines =
   match lines with
   | [] -> ()
   | hd :: ops ->
-    let hdw = (match words hd with [a; b; c; d] -> [a; b; c; d; "1"] | w -> w) in
+    let hdw = norm_cfg (words hd) in
     (match hdw with
-     | ["cfg"; kind; p; mode; ev] when (try int_of_string p >= 1 && int_of_string p <= 200000 with _ -> false) ->
+     | ["cfg"; kind; p; mode; ev; desc; mask; _store] when (try int_of_string p >= 1 && int_of_string p <= 200000 with _ -> false) ->
        let cmp = kind <> "ord" and pool = int_of_string p and hashmode = (mode = "hash") in
        let every = (match int_of_string_opt ev with Some e -> e | None -> 1) in
        let nlines = List.length ops and li = ref 0 in
-       let less = pless N.ltb in
+       let less = dirless (desc <> "0") (n_of_string mask) in
        let t : (pelt, unit) tree ref = ref E in
        let member = Array.make pool false in
        let dump () =
@@ -183,13 +193,13 @@ let body_ptr lines =
   match lines with
   | [] -> ()
   | hd :: ops ->
-    let hdw = (match words hd with [a; b; c; d] -> [a; b; c; d; "1"] | w -> w) in
+    let hdw = norm_cfg (words hd) in
     (match hdw with
-     | ["cfg"; kind; p; mode; ev] when (try int_of_string p >= 1 && int_of_string p <= 200000 with _ -> false) ->
+     | ["cfg"; kind; p; mode; ev; desc; mask; _store] when (try int_of_string p >= 1 && int_of_string p <= 200000 with _ -> false) ->
        let cmp = kind <> "ord" and raw = (kind = "raw") and pool = int_of_string p and hashmode = (mode = "hash") in
        let every = (match int_of_string_opt ev with Some e -> e | None -> 1) in
        let nlines = List.length ops and li = ref 0 in
-       let less = pless N.ltb in
+       let less = dirless (desc <> "0") (n_of_string mask) in
        let keys = Array.make pool N0 in
        let ek (i : n) : pelt = let k = int_of_n i in ((if k >= 0 && k < pool then keys.(k) else N0), i) in
        let arr = Array.make pool null_hook in
